@@ -149,7 +149,7 @@ def run(tier, selftest=False, only=None):
         model_check(rep, tier)
     if sel("traces"):
         rng = random.Random(seed * 104729 + 9)
-        n = 320 if tier == "quick" else 6000
+        n = 800 if tier == "quick" else 8000
         hs = [sampling_history(rng, "c%d" % i) for i in range(n)]
         H.check_histories(rep, hs, "sampling")
         rep.extra["scripts"] = n
